@@ -185,7 +185,9 @@ TraceNext ==
          [] r.ev = "op" ->
               LET L == NewLive(r)
                   oc == NewCls(r)
-                  why == ResultFailures(r) \cup DropFailures(r) \cup PostFailures(L, oc, r)
+                  rf == ResultFailures(r)
+                  \* an unexpected panic ends the history; its record lacks the fields of a completed operation
+                  why == IF r.res = "panic" /\ rf # {} THEN rf ELSE rf \cup DropFailures(r) \cup PostFailures(L, oc, r)
               IN IF why # {} THEN Reject(l, r.op, r.n, why) /\ Skip(NextReset(l))
                  ELSE \/ /\ Apply(r) /\ live' = L
                          /\ caps' = IF r.pl = 1 THEN r.caps ELSE caps
